@@ -4,6 +4,7 @@ import Driver.Dist
 import Driver.AckQueue
 import Driver.Auth
 import Driver.MsgLog
+import Driver.Broker
 /-! `waspmodel <domain> [args]` — executes the Lean models on op lines from stdin. -/
 open Driver
 
@@ -24,4 +25,6 @@ def main (args : List String) : IO UInt32 := do
   | ["ackq"] => loop stdin stdout Driver.AckQueue.step {}; return 0
   | ["auth"] => loop stdin stdout Driver.Auth.step {}; return 0
   | ["msglog"] => loop stdin stdout Driver.MsgLog.step {}; return 0
+  | ["broker"] => loop stdin stdout Driver.Broker.step {}; return 0
+  | "broker" :: _ => loop stdin stdout Driver.Broker.step {}; return 0
   | _ => IO.eprintln "usage: waspmodel <domain>"; return 2
